@@ -172,7 +172,7 @@ func checkC03(c *core.Check) {
 	}
 	nPacked, nRoot, depth := 48, 8, 4
 	if thorough {
-		nPacked, nRoot, depth = 200, 20, 5
+		nPacked, nRoot, depth = 120, 12, 5
 	}
 	if nPacked > len(sets) {
 		nPacked = len(sets)
